@@ -2,11 +2,13 @@
 mod build;
 mod conductor;
 mod driver;
+mod exec;
 mod fam;
 mod hsys;
 mod oracles;
 mod p_builder;
 mod p_layout;
+mod p_sched;
 mod plan;
 mod res;
 
@@ -52,9 +54,16 @@ fn sub<P: driver::Prop + 'static>(p: P, quick: usize, thorough: usize) -> Sub {
 
 fn install_quiet_panic_hook() {
     // panics are data here: the harness provokes and catches many of them
-    if std::env::var("VERIF_LOUD").is_err() {
-        std::panic::set_hook(Box::new(|_| {}));
-    }
+    let loud = std::env::var("VERIF_LOUD").is_ok();
+    let default_hook = std::panic::take_hook();
+    std::panic::set_hook(Box::new(move |info| {
+        if let Some(l) = hsys::lane_of_current_thread() {
+            hsys::PANIC_EPOCH[l].fetch_add(1, std::sync::atomic::Ordering::SeqCst);
+        }
+        if loud {
+            default_hook(info);
+        }
+    }));
 }
 
 pub const ALL: [&str; 20] = [
@@ -103,6 +112,65 @@ fn dense_conflict_cfg() -> GenCfg {
         max_reads: 3,
         max_writes: 2,
         ..GenCfg::default()
+    }
+}
+
+fn sched_cfg() -> GenCfg {
+    GenCfg {
+        max_ops: 12,
+        max_inner_ops: 4,
+        universe_max: 6,
+        tl_in_batch: false,
+        max_depth: 2,
+        ..GenCfg::default()
+    }
+}
+
+fn tiny_cfg() -> GenCfg {
+    GenCfg {
+        max_ops: 5,
+        universe_max: 4,
+        max_reads: 2,
+        max_writes: 1,
+        p_batch: 0,
+        p_tl: 0,
+        p_static: 2,
+        ..GenCfg::default()
+    }
+}
+
+#[allow(clippy::too_many_arguments)]
+fn sp(
+    property: &'static str,
+    name: &'static str,
+    rule: &'static str,
+    cfg: GenCfg,
+    wants: Vec<p_sched::Want>,
+    entries: Vec<exec::Entry>,
+    strategies: Vec<u8>,
+    nontrivial: fn(&build::Built) -> bool,
+) -> p_sched::SchedProp {
+    p_sched::SchedProp {
+        property,
+        name,
+        rule,
+        cfg,
+        wants,
+        entries,
+        thread_choices: vec![1, 2, 3, 4, 6, 8, 16],
+        strategies,
+        max_repeats: 3,
+        nontrivial,
+        dfs_limit: 3000,
+    }
+}
+
+fn sched_sub(p: p_sched::SchedProp, quick: usize, thorough: usize) -> Sub {
+    Sub {
+        p: Box::new(p),
+        quick,
+        thorough,
+        max_lanes: 8,
     }
 }
 
@@ -369,8 +437,173 @@ fn run_regressions(id: &str, subs: &[Sub]) -> SubResult {
     }
 }
 
+fn sched_subs_for(id: &str) -> Vec<Sub> {
+    use exec::Entry::*;
+    use p_sched::Want;
+    match id {
+        "C01" => vec![
+            sched_sub(
+                sp(
+                    "C01",
+                    "c01-sched",
+                    "plans (<= 12 ops, static and dynamic ids, deps, hints, barriers, nested batches) x schedule (random linear extension of the enabled fetch/release events | maximal overlap | free run with jitter when the pool is smaller than the plan's concurrency) x pool size {1,2,3,4,6,8,16} x entry {dispatch, dispatch_par, dispatch_seq} x 1..3 repeated dispatches; oracle B: no panic escapes, fetch..release windows of conflicting systems are disjoint in the observed history; non-trivial = a stage with >= 2 groups and >= 1 conflicting pair",
+                    sched_cfg(),
+                    vec![Want::Isolation, Want::Counts],
+                    vec![Dispatch, Par, SeqTl],
+                    vec![0, 1, 1, 2],
+                    p_sched::nt_isolation,
+                ),
+                3_000,
+                100_000,
+            ),
+            sched_sub(
+                p_sched::SchedProp {
+                    max_repeats: 1,
+                    thread_choices: vec![4, 8],
+                    ..sp(
+                        "C01",
+                        "c01-sched-dfs",
+                        "tiny plans (<= 5 systems): ALL interleavings of the enabled fetch/release events (depth-first over decision sequences, cut off at 3000 runs per plan)",
+                        tiny_cfg(),
+                        vec![Want::Isolation],
+                        vec![Par],
+                        vec![3],
+                        p_sched::nt_isolation,
+                    )
+                },
+                60,
+                2_000,
+            ),
+        ],
+        "C02" => vec![sched_sub(
+            sp(
+                "C02",
+                "c02-sched",
+                "dependency-heavy plans whose systems mostly share no resource x schedule x pool size x entry; oracle B: Released(A) < FetchBegin(B) for every declared edge in every dispatch (schedules hold A at its release gate while everything else enabled proceeds); non-trivial = an edge whose endpoints do not conflict",
+                GenCfg {
+                    p_dep: 11,
+                    max_deps: 3,
+                    universe_max: 12,
+                    max_reads: 1,
+                    max_writes: 1,
+                    ..sched_cfg()
+                },
+                vec![Want::Deps, Want::Counts],
+                vec![Dispatch, Par, SeqTl],
+                vec![0, 1, 2],
+                p_sched::nt_deps,
+            ),
+            3_000,
+            60_000,
+        )],
+        "C03" => vec![sched_sub(
+            sp(
+                "C03",
+                "c03-sched",
+                "plans of mostly unrelated systems with barriers at arbitrary positions (also inside batch builders) x schedule x pool x entry; oracle B: Released(pre) < FetchBegin(post) in every dispatch; thread-local systems after everything; non-trivial = unrelated systems on both sides of an effective barrier",
+                GenCfg {
+                    p_barrier: 4,
+                    p_dep: 1,
+                    universe_max: 12,
+                    max_reads: 1,
+                    max_writes: 1,
+                    ..sched_cfg()
+                },
+                vec![Want::Barriers, Want::ThreadLocal],
+                vec![Dispatch, Par, SeqTl],
+                vec![0, 1, 2],
+                p_sched::nt_barriers,
+            ),
+            3_000,
+            60_000,
+        )],
+        "C04" => vec![sched_sub(
+            p_sched::SchedProp {
+                max_repeats: 4,
+                ..sp(
+                    "C04",
+                    "c04-exec",
+                    "plans with nested batches (custom controller dispatching 0..3 times, shred's MultiDispatcher planning 0..3) and thread-local systems x pool size x entry {dispatch, dispatch_par, dispatch_seq(+thread_local)} x 1..4 repeated calls; oracle: run counter of every ordinary system == number of calls, thread-local == calls that run them, inner systems == calls x product of the enclosing controllers' dispatch counts; non-trivial = a group of >= 3, >= 8 stages, or a batch dispatching >= 2 times",
+                    GenCfg {
+                        p_batch: 3,
+                        tl_in_batch: true,
+                        max_ops: 16,
+                        ..sched_cfg()
+                    },
+                    vec![Want::Counts],
+                    vec![Dispatch, Par, SeqTl, Seq],
+                    vec![2, 0],
+                    p_sched::nt_counts,
+                )
+            },
+            3_000,
+            60_000,
+        )],
+        "C05" => vec![
+            sched_sub(
+                sp(
+                    "C05",
+                    "c05-differential",
+                    "plans whose systems apply order-sensitive updates (each written cell := h(old, system, digest of everything read, own state)) x schedule x pool size x 1..3 repeated dispatches; oracle: world contents and every system's state after dispatch/dispatch_par under the generated schedule == after dispatch_seq of the same dispatcher on an identical world; non-trivial = >= 2 groups side by side and a resource written by >= 2 systems",
+                    sched_cfg(),
+                    vec![Want::Differential],
+                    vec![Dispatch, Par],
+                    vec![0, 1, 2],
+                    p_sched::nt_differential,
+                ),
+                3_000,
+                100_000,
+            ),
+            sched_sub(
+                p_sched::SchedProp {
+                    max_repeats: 1,
+                    thread_choices: vec![4, 8],
+                    ..sp(
+                        "C05",
+                        "c05-dfs",
+                        "tiny plans: all interleavings, each compared with the sequential result",
+                        tiny_cfg(),
+                        vec![Want::Differential],
+                        vec![Par],
+                        vec![3],
+                        p_sched::nt_differential,
+                    )
+                },
+                60,
+                2_000,
+            ),
+        ],
+        "C12" => vec![sched_sub(
+            sp(
+                "C12",
+                "c12-sched",
+                "plans mixing 0..5 really !Send thread-local systems with ordinary systems, barriers and batches (builders with thread-local systems are also passed to add_batch) x schedule x pool x {dispatch, dispatch_seq+dispatch_thread_local}; oracle: every thread-local run is on the dispatching thread and not on a pool worker, begins after every other system of that dispatch released, runs in registration order one at a time; non-trivial = >= 2 thread-local and >= 2 ordinary systems at top level",
+                GenCfg {
+                    p_tl: 4,
+                    tl_in_batch: true,
+                    p_batch: 2,
+                    ..sched_cfg()
+                },
+                vec![Want::ThreadLocal, Want::Counts],
+                vec![Dispatch, SeqTl],
+                vec![0, 1, 2],
+                p_sched::nt_thread_local,
+            ),
+            3_000,
+            60_000,
+        )],
+        _ => vec![],
+    }
+}
+
+fn all_subs_for(id: &str) -> Vec<Sub> {
+    let mut v = subs_for(id);
+    v.extend(sched_subs_for(id));
+    v
+}
+
 fn run_property(id: &str, tier: &Tier, known: &Known) -> i32 {
-    let subs = subs_for(id);
+    let subs = all_subs_for(id);
     if subs.is_empty() {
         eprintln!("unknown property {}", id);
         return 2;
@@ -422,7 +655,7 @@ fn replay(path: &str) -> i32 {
     let property = v["property"].as_str().unwrap_or("").to_string();
     let mut result = None;
     for id in ALL {
-        for s in subs_for(id) {
+        for s in all_subs_for(id) {
             if s.p.dname() == check {
                 result = Some(s.p.dreplay(&v["case"]));
             }
